@@ -76,6 +76,14 @@ def run(chk, tier):
             return True  # written as InlineBinary, which is handled outside the VR table (checked below)
         return False
 
+    # what the serializer writes today (not only what the reference says it should): a numeric VR written as InlineBinary comes back
+    # as bytes, which is a documented normalisation for the binary VRs only
+    from . import c24
+    written = c24.ser_forms(fx)
+    chk.floor("json-ser-de", "serializer arms", len(written), 33)
+    for v, (form, loc) in sorted(written.items()):
+        chk.expect(form == ser_ref[v] and accepts(form, de_tab[v]), "json-ser-de", "element-serializer -> visit_map", v,
+                   f"written as `{ser_ref[v]}` and that form is parsed by the deserializer's {v} arm", {"written": form, "read as": de_tab[v]}, loc=loc)
     for v in vrs:
         chk.expect(accepts(ser_ref[v], de_tab[v]), "json-ser-de", "visit_map", v, f"accepts the `{ser_ref[v]}` form", de_tab[v], loc=f"{h['loc']['f']}:{arms[tab[v][0]][3] if tab[v] else 0}")
     # InlineBinary: decoded with base64 STANDARD for any VR; Value+InlineBinary together is an error
